@@ -245,6 +245,17 @@ def shard(ctx):
                         p_hostile_names=0.05, macro_sub=rng.random() < 0.4, p_usepulses=0.3,
                         body_len=(1, 6), wild_numbers=rng.random() < 0.3)
         prog = g.program()
+        if i % 40 == 7:
+            # a macro with a long body (tens of gate statements) that then calls another macro: depth is not length
+            macs = [s_ for s_ in prog[1:] if s_[0] == "macro" and len(s_) == 3]
+            regs = [s_ for s_ in prog[1:] if s_[0] == "register"]
+            if macs and regs:
+                k_ = max(j_ for j_, s_ in enumerate(prog) if isinstance(s_, tuple) and s_[0] == "macro")
+                q0_ = ("array_item", regs[0][1], 0)
+                n_ = rng.choice([49, 50, 51, 60, 120])
+                big = ("macro", "vflong", ("sequential_block",) + tuple(("gate", "lg", q0_, float(j_)) for j_ in range(n_)) + (("gate", macs[0][1]),))
+                prog = prog[:k_ + 1] + (big,) + prog[k_ + 1:] + (("gate", "vflong"),)
+                rec.count("programs-with-a-long-macro-body")
         case = {"prog": prog, "preserve": rng.random() < 0.5}
         if rng.random() < 0.3:
             case["prior"] = True
